@@ -31,6 +31,7 @@ spec = {
 }
 """
 import ast
+import copy
 import hashlib
 import os
 import re
@@ -200,8 +201,18 @@ def parse_fmt(fmt):
 # ---------------------------------------------------------------------------
 
 class Tr:
-    def __init__(self, spec):
+    def __init__(self, spec, fn=None):
         self.spec = spec
+        self.fn = fn
+        self.mi = getattr(fn, "_mi", None)
+        self.cls = getattr(fn, "_cls", None)
+        self.locals = set()
+        if fn is not None:
+            self.locals = fn_locals(fn) | {x for c in getattr(fn, "_callees", ()) for x in fn_locals(c)}
+        self.consts_used = {}      # module / class constants that were inlined: name -> source text
+        self.inlined = set(getattr(fn, "_inlined", ()))   # helpers inlined (AST level, and while translating)
+        self.const_stack = []
+        self.inline_stack = []
         self.inputs = []           # (dump key, coq name, type, set of python names mentioned, text)
         for text, cname, ty in spec["inputs"]:
             if ty not in ("nat", "N", "bool", "bytes"):
@@ -277,6 +288,10 @@ class Tr:
         v = self.as_input(e, env)
         if v is not None:
             return v
+        if isinstance(e, ast.Attribute):
+            v = self.class_const(e, env)
+            if v is not None:
+                return v
         m = getattr(self, "e_" + type(e).__name__, None)
         if m is None:
             _bad(e, "expression outside the grammar")
@@ -297,7 +312,67 @@ class Tr:
         if e.id in env:
             cname, ty = env[e.id]
             return V(cname, ty)
-        _bad(e, "name is neither an input nor an assigned local")
+        v = self.module_const(e, env)
+        if v is not None:
+            return v
+        _bad(e, "name is neither an input, an assigned local nor a module constant")
+
+    # -- constants --------------------------------------------------------------
+    @staticmethod
+    def is_const_expr(n):
+        """Literal ints / bytes, bytes([...]) of them, arithmetic and other constant names."""
+        if isinstance(n, ast.Constant):
+            return (isinstance(n.value, int) and not isinstance(n.value, bool) and n.value >= 0) or isinstance(n.value, bytes)
+        if isinstance(n, ast.Name):
+            return True                    # checked when it is resolved in turn
+        if isinstance(n, ast.BinOp):
+            return Tr.is_const_expr(n.left) and Tr.is_const_expr(n.right)
+        if isinstance(n, (ast.List, ast.Tuple)):
+            return all(Tr.is_const_expr(x) for x in n.elts)
+        if isinstance(n, ast.Call) and isinstance(n.func, ast.Name) and n.func.id == "bytes" and len(n.args) == 1 and not n.keywords:
+            return isinstance(n.args[0], ast.List) and Tr.is_const_expr(n.args[0])
+        return False
+
+    def const_value(self, key, value, node):
+        if not self.is_const_expr(value):
+            _bad(node, "%s is bound once at top level but not to a constant expression (%s)" % (key, _unp(value)[:60]))
+        if key in self.const_stack:
+            _bad(node, "cyclic constant %s" % key)
+        self.const_stack.append(key)
+        try:
+            v = self.expr(value, {})       # constants only see other constants
+        finally:
+            self.const_stack.pop()
+        self.consts_used[key] = _unp(value)
+        return v
+
+    def module_const(self, e, env):
+        """A name bound exactly once at module level, by `NAME = <constant expression>`, and not local to
+        the function (nor to the helpers it calls): inlined as its value."""
+        if self.mi is None or e.id in self.locals or e.id not in self.mi.consts:
+            return None
+        return self.const_value(e.id, self.mi.consts[e.id], e)
+
+    def class_const(self, e, env):
+        """self.NAME / cls.NAME / Class.NAME where NAME is bound exactly once in the class body to a constant
+        expression and never assigned through an attribute anywhere in the module."""
+        if self.mi is None or not isinstance(e.value, ast.Name):
+            return None
+        base = e.value.id
+        owner = None
+        if base in ("self", "cls") and self.cls is not None and base not in (self.locals - {"self", "cls"}) and base not in env:
+            owner = self.cls
+        elif base in self.mi.classes and base not in self.locals and base not in env:
+            owner = self.mi.classes[base]
+        if owner is None:
+            return None
+        consts = self.mi.class_consts(owner)
+        if e.attr not in consts:
+            return None
+        for n in ast.walk(self.mi.tree):
+            if isinstance(n, ast.Attribute) and n.attr == e.attr and isinstance(n.ctx, (ast.Store, ast.Del)):
+                _bad(e, "attribute %s is assigned somewhere in the module: not a constant" % e.attr)
+        return self.const_value("%s.%s" % (owner.name, e.attr), consts[e.attr], e)
 
     def e_BinOp(self, e, env):
         a, b = self.expr(e.left, env), self.expr(e.right, env)
@@ -336,6 +411,12 @@ class Tr:
     def e_Compare(self, e, env):
         if len(e.ops) != 1:
             _bad(e, "chained comparison")
+        if isinstance(e.ops[0], (ast.In, ast.NotIn)) and isinstance(e.comparators[0], (ast.Tuple, ast.List, ast.Set)) and e.comparators[0].elts:
+            # a in (x, y)  ==  a == x or a == y
+            alts = [ast.copy_location(ast.Compare(left=e.left, ops=[ast.Eq()], comparators=[x]), e) for x in e.comparators[0].elts]
+            d = alts[0] if len(alts) == 1 else ast.copy_location(ast.BoolOp(op=ast.Or(), values=alts), e)
+            v = self.expr(d, env)
+            return v if isinstance(e.ops[0], ast.In) else V("(negb %s)" % v.text, "bool", v.conds)
         a, b = self.expr(e.left, env), self.expr(e.comparators[0], env)
         conds = a.conds + b.conds
         ta, tb = resolve(a.ty), resolve(b.ty)
@@ -535,6 +616,12 @@ class Tr:
 
     def e_Call(self, e, env):
         fn = self.callee(e)
+        v = self.method_call(e, env)
+        if v is not None:
+            return v
+        v = self.inline_call(e, env)
+        if v is not None:
+            return v
         self.used.add(fn)
         if e.keywords:
             _bad(e, "keyword arguments")
@@ -593,6 +680,75 @@ class Tr:
         if fn in ("unpack", "struct.unpack") and len(e.args) == 2:
             return self.unpack(e, env, None)
         _bad(e, "call outside the grammar")
+
+    def method_call(self, e, env):
+        """x.to_bytes(n, 'little' | 'big')  and  b''.join(list of bytes)"""
+        f = e.func
+        if not isinstance(f, ast.Attribute):
+            return None
+        if f.attr == "to_bytes":
+            args = list(e.args)
+            kw = {k.arg: k.value for k in e.keywords}
+            if len(args) == 1 and set(kw) == {"byteorder"}:
+                args.append(kw["byteorder"])
+            elif kw or len(args) != 2:
+                return None
+            n, order = args
+            if not isinstance(n, ast.Constant) and self.is_const_expr(n):
+                nt = resolve(self.expr(n, {k: v for k, v in env.items() if k == "\0none"}).ty)   # a named constant
+                if isinstance(nt, tuple) and nt[0] == "lit":
+                    n = ast.copy_location(ast.Constant(value=nt[1]), n)
+            if not (isinstance(n, ast.Constant) and isinstance(n.value, int) and 1 <= n.value <= 8
+                    and isinstance(order, ast.Constant) and order.value in ("little", "big")):
+                _bad(e, "to_bytes(length, byteorder) with a constant length 1..8 and 'little' / 'big' only")
+            v = self.expr(f.value, env)
+            if not is_int(resolve(v.ty)):
+                return None
+            vt = coerce(v, "N", e)
+            return V("(py_pack_%s %d%%nat %s)" % ("le" if order.value == "little" else "be", n.value, vt), "bytes",
+                     v.conds + ["(%s < %d)%%N" % (vt, 256 ** n.value)])
+        if f.attr == "join" and isinstance(f.value, ast.Constant) and f.value.value == b"" and len(e.args) == 1 and not e.keywords:
+            v = self.expr(e.args[0], env)
+            t = resolve(v.ty)
+            if not (isinstance(t, tuple) and t[0] == "list"):
+                _bad(e, "b''.join of a non-list")
+            unify(t[1], "bytes", e)
+            return V("(py_concat %s)" % v.text, "bytes", v.conds)
+        return None
+
+    def inline_call(self, e, env):
+        """A call of a same-module function / same-class method whose body is in the translatable subset
+        (assignments, if/else, final return): translated in place, the parameters standing for the
+        (pure) argument values."""
+        if self.mi is None:
+            return None
+        r = resolve_callee(e, self.mi, self.cls, self.locals if not self.inline_stack else fn_locals(self.inline_stack[-1]))
+        if r is None:
+            return None
+        helper, params = r
+        if helper.name in [h.name for h in self.inline_stack] or len(self.inline_stack) > 4:
+            _bad(e, "recursive helper %s" % helper.name)
+        m = bind_args(e, helper, params)
+        if m is None:
+            _bad(e, "call of helper %s does not fit its parameters" % helper.name)
+        hp = prepare(helper, self.mi, self.cls)
+        hl = fn_locals(helper)
+        env2 = {"\0dead": set(env.get("\0dead", ()))}
+        conds = []
+        for p in params:
+            v = self.expr(m[p], env)
+            conds += v.conds
+            env2[p] = (v.text if v.text is None or v.text.startswith("(") or re.match(r"^[A-Za-z0-9_.%']+$", v.text) else "(%s)" % v.text, v.ty)
+        env2 = self.kill(env2, hl)
+        def final(_env):
+            _bad(e, "helper %s: a path reaches its end without `return`" % helper.name)
+        self.inline_stack.append(helper)
+        try:
+            d, ty, pre = self.block(_body_wo_doc(hp), env2, final)
+        finally:
+            self.inline_stack.pop()
+        self.inlined.add(helper.name)
+        return V("(%s)" % d, ty, conds + ([pre] if pre != "True" else []))
 
     # -- statements ----------------------------------------------------------
     @staticmethod
@@ -774,34 +930,430 @@ def _ind(s):
 # locating source
 # ---------------------------------------------------------------------------
 
-def find_function(tree, qualname):
-    node = tree
-    for part in qualname.split("."):
-        nxt = [n for n in getattr(node, "body", []) if isinstance(n, (ast.FunctionDef, ast.ClassDef)) and n.name == part]
-        if len(nxt) != 1:
-            raise Unsupported("%s: %d definitions of %r" % (qualname, len(nxt), part))
-        node = nxt[0]
-    if not isinstance(node, ast.FunctionDef):
-        raise Unsupported("%s is not a function" % qualname)
-    return node
-
-
 def _unp(n):
     return ast.unparse(n)
 
 
+# ---------------------------------------------------------------------------
+# source preparation: module facts, helper inlining, normal forms
+# (all behaviour preserving; the prepared AST is what selectors address, what is translated and what
+#  the live side of the differential validation compiles and runs)
+# ---------------------------------------------------------------------------
+
+def _dfs(node):
+    """Pre-order walk (source order for unmodified code; stable for inlined copies)."""
+    yield node
+    for c in ast.iter_child_nodes(node):
+        yield from _dfs(c)
+
+
+def _stores(node):
+    out = set()
+    for n in ast.walk(node):
+        if isinstance(n, ast.Name) and isinstance(n.ctx, (ast.Store, ast.Del)):
+            out.add(n.id)
+        elif isinstance(n, (ast.FunctionDef, ast.ClassDef, ast.AsyncFunctionDef)) and n is not node:
+            out.add(n.name)
+        elif isinstance(n, (ast.Import, ast.ImportFrom)):
+            for a in n.names:
+                out.add((a.asname or a.name).split(".")[0])
+        elif isinstance(n, ast.ExceptHandler) and n.name:
+            out.add(n.name)
+    return out
+
+
+def fn_locals(fn):
+    a = fn.args
+    params = {x.arg for x in a.args + a.posonlyargs + a.kwonlyargs}
+    if a.vararg:
+        params.add(a.vararg.arg)
+    if a.kwarg:
+        params.add(a.kwarg.arg)
+    body = ast.Module(body=fn.body, type_ignores=[])
+    return params | _stores(body)
+
+
+class ModInfo:
+    """Facts about the module a translated function lives in."""
+    def __init__(self, tree):
+        self.tree = tree
+        self.globals_declared = {x for n in ast.walk(tree) if isinstance(n, (ast.Global, ast.Nonlocal)) for x in n.names}
+        self.funcs = self._defs(tree.body)
+        self.classes = {n.name: n for n in tree.body if isinstance(n, ast.ClassDef)}
+        self.consts = self._consts(tree.body)
+
+    @staticmethod
+    def _bind_counts(body):
+        cnt = {}
+        def add(n):
+            cnt[n] = cnt.get(n, 0) + 1
+        for s in body:
+            if isinstance(s, (ast.FunctionDef, ast.ClassDef, ast.AsyncFunctionDef)):
+                add(s.name)
+            else:
+                for n in _stores(s):
+                    add(n)
+                    if not (isinstance(s, ast.Assign) and len(s.targets) == 1 and isinstance(s.targets[0], ast.Name)):
+                        add(n)          # bound by anything but a plain `NAME = value`: never a constant
+        return cnt
+
+    def _defs(self, body):
+        cnt = self._bind_counts(body)
+        return {s.name: s for s in body if isinstance(s, ast.FunctionDef) and cnt.get(s.name) == 1}
+
+    def _consts(self, body):
+        """NAME = <expr> bound exactly once at this level (the value is checked when it is used)."""
+        cnt = self._bind_counts(body)
+        out = {}
+        for s in body:
+            if isinstance(s, ast.Assign) and len(s.targets) == 1 and isinstance(s.targets[0], ast.Name):
+                n = s.targets[0].id
+                if cnt.get(n) == 1 and n not in self.globals_declared:
+                    out[n] = s.value
+        return out
+
+    def methods(self, cls):
+        return self._defs(cls.body) if cls is not None else {}
+
+    def class_consts(self, cls):
+        return self._consts(cls.body) if cls is not None else {}
+
+    def method_defined_elsewhere(self, cls, name):
+        """Another class of the module defines a method of that name (a subclass could override it)."""
+        for c in self.classes.values():
+            if c is not cls and any(isinstance(s, (ast.FunctionDef, ast.AsyncFunctionDef)) and s.name == name for s in c.body):
+                return True
+        return False
+
+
+def find_function(tree, qualname):
+    """-> (function node, enclosing class node or None)"""
+    node, cls = tree, None
+    for part in qualname.split("."):
+        nxt = [n for n in getattr(node, "body", []) if isinstance(n, (ast.FunctionDef, ast.ClassDef)) and n.name == part]
+        if len(nxt) != 1:
+            raise Unsupported("%s: %d definitions of %r" % (qualname, len(nxt), part))
+        if isinstance(node, ast.ClassDef):
+            cls = node
+        node = nxt[0]
+    if not isinstance(node, ast.FunctionDef):
+        raise Unsupported("%s is not a function" % qualname)
+    return node, cls
+
+
+def resolve_callee(call, mi, cls, caller_locals):
+    """The same-module function / same-class method a call statically refers to, or None.
+    -> (helper FunctionDef, its parameter names without self/cls)"""
+    f = call.func
+    helper, drop = None, 0
+    if isinstance(f, ast.Name):
+        if f.id in caller_locals or f.id not in mi.funcs:
+            return None
+        helper = mi.funcs[f.id]
+        if helper.decorator_list:
+            return None
+    elif isinstance(f, ast.Attribute) and isinstance(f.value, ast.Name):
+        owner = None
+        if f.value.id in ("self", "cls") and cls is not None and f.value.id not in (caller_locals - {"self", "cls"}):
+            owner = cls
+        elif f.value.id in mi.classes and f.value.id not in caller_locals:
+            owner = mi.classes[f.value.id]
+        if owner is None:
+            return None
+        helper = mi.methods(owner).get(f.attr)
+        if helper is None or mi.method_defined_elsewhere(owner, f.attr):
+            return None
+        decos = [_unp(d) for d in helper.decorator_list]
+        if decos == []:
+            if f.value.id not in ("self",):
+                return None           # plain method reached through the class: the receiver is an explicit argument
+            drop = 1
+        elif decos == ["staticmethod"]:
+            drop = 0
+        elif decos == ["classmethod"]:
+            drop = 1
+        else:
+            return None
+    else:
+        return None
+    a = helper.args
+    if a.vararg or a.kwarg or a.kwonlyargs or a.posonlyargs:
+        return None
+    if any(isinstance(n, (ast.Yield, ast.YieldFrom, ast.Await, ast.Global, ast.Nonlocal, ast.Lambda, ast.FunctionDef)) for s in helper.body for n in ast.walk(s)):
+        return None
+    return helper, [x.arg for x in a.args][drop:]
+
+
+def bind_args(call, helper, params):
+    """parameter name -> argument AST (defaults filled in), or None when the call does not fit."""
+    if len(call.args) > len(params) or any(isinstance(x, ast.Starred) for x in call.args):
+        return None
+    m = dict(zip(params, call.args))
+    for kw in call.keywords:
+        if kw.arg is None or kw.arg not in params or kw.arg in m:
+            return None
+        m[kw.arg] = kw.value
+    defaults = dict(zip([x.arg for x in helper.args.args][len(helper.args.args) - len(helper.args.defaults):], helper.args.defaults))
+    for p in params:
+        if p not in m:
+            if p not in defaults or not isinstance(defaults[p], ast.Constant):
+                return None
+            m[p] = defaults[p]
+    return m
+
+
+class _Subst(ast.NodeTransformer):
+    def __init__(self, m):
+        self.m = m
+
+    def visit_Name(self, n):
+        if isinstance(n.ctx, ast.Load) and n.id in self.m:
+            return copy.deepcopy(self.m[n.id])
+        return n
+
+
+def _body_wo_doc(fn):
+    b = list(fn.body)
+    if b and isinstance(b[0], ast.Expr) and isinstance(b[0].value, ast.Constant) and isinstance(b[0].value.value, str):
+        b = b[1:]
+    return b
+
+
+class Inliner(ast.NodeTransformer):
+    """AST-level inlining of same-module / same-class helpers:
+       * a call whose helper is `return <expr>` (after its docstring) becomes that expression with the
+         parameters replaced by the argument expressions (arguments are pure in the translatable subset);
+       * an expression statement calling a helper without `return <value>` becomes the helper's statements.
+    Names the helper reads that are not parameters must mean the same thing in the caller: they must not
+    be local to the caller; the helper's own locals must not collide with the caller's."""
+    def __init__(self, mi, cls, caller_locals, depth=0, stack=(), done=None):
+        self.mi, self.cls, self.locals, self.depth, self.stack = mi, cls, caller_locals, depth, stack
+        self.done = done if done is not None else set()
+
+    def _helper(self, call):
+        if self.depth > 4:
+            return None
+        r = resolve_callee(call, self.mi, self.cls, self.locals)
+        if r is None or r[0].name in self.stack:
+            return None
+        helper, params = r
+        m = bind_args(call, helper, params)
+        if m is None:
+            return None
+        hlocals = fn_locals(helper)
+        stored = _stores(ast.Module(body=helper.body, type_ignores=[]))
+        if stored & set(params):
+            return None            # the helper re-binds a parameter
+        body = copy.deepcopy(_body_wo_doc(helper))
+        sub = Inliner(self.mi, self.cls, hlocals, self.depth + 1, self.stack + (helper.name,), self.done)
+        body = [sub.visit(s) for s in body]
+        body = [x for s in body for x in (s if isinstance(s, list) else [s])]
+        free = {n.id for s in body for n in ast.walk(s) if isinstance(n, ast.Name) and isinstance(n.ctx, ast.Load)} - set(params) - stored
+        if free & (self.locals - {"self", "cls"}):
+            return None
+        if (stored - set(params)) & self.locals:
+            return None
+        return helper, params, m, body
+
+    def visit_Call(self, node):
+        self.generic_visit(node)
+        h = self._helper(node)
+        if h is None:
+            return node
+        helper, params, m, body = h
+        if len(body) == 1 and isinstance(body[0], ast.Return) and body[0].value is not None:
+            self.done.add(helper.name)
+            return _Subst(m).visit(body[0].value)
+        return node
+
+    def visit_Expr(self, node):
+        if isinstance(node.value, ast.Call):
+            h = self._helper(node.value)
+            if h is not None:
+                helper, params, m, body = h
+                if body and isinstance(body[-1], ast.Return) and body[-1].value is None:
+                    body = body[:-1]
+                if body and not any(isinstance(n, ast.Return) for s in body for n in ast.walk(s)):
+                    self.done.add(helper.name)
+                    return [_Subst(m).visit(s) for s in body]
+        self.generic_visit(node)
+        return node
+
+
+_NEG = {ast.Eq: ast.NotEq, ast.NotEq: ast.Eq, ast.Lt: ast.GtE, ast.GtE: ast.Lt, ast.Gt: ast.LtE, ast.LtE: ast.Gt,
+        ast.Is: ast.IsNot, ast.IsNot: ast.Is, ast.In: ast.NotIn, ast.NotIn: ast.In}
+
+
+def negate(t):
+    """Logical negation in negation normal form (comparisons are on ints / identities / membership)."""
+    if isinstance(t, ast.UnaryOp) and isinstance(t.op, ast.Not):
+        return t.operand
+    if isinstance(t, ast.Compare) and len(t.ops) == 1:
+        n = ast.Compare(left=t.left, ops=[_NEG[type(t.ops[0])]()], comparators=t.comparators)
+        return ast.copy_location(n, t)
+    if isinstance(t, ast.BoolOp):
+        n = ast.BoolOp(op=ast.Or() if isinstance(t.op, ast.And) else ast.And(), values=[negate(v) for v in t.values])
+        return ast.copy_location(n, t)
+    return ast.copy_location(ast.UnaryOp(op=ast.Not(), operand=t), t)
+
+
+def _negativity(t):
+    return sum(1 for n in ast.walk(t) if isinstance(n, (ast.NotEq, ast.Not)))
+
+
+_TERM = (ast.Return, ast.Raise, ast.Break, ast.Continue)
+
+
+def _terminates(stmts):
+    if not stmts:
+        return False
+    s = stmts[-1]
+    if isinstance(s, _TERM):
+        return True
+    return isinstance(s, ast.If) and _terminates(s.body) and _terminates(s.orelse)
+
+
+def _term_only(stmts):
+    return bool(stmts) and all(isinstance(s, _TERM) for s in stmts)
+
+
+def _mentions(node, name):
+    return any(isinstance(n, ast.Name) and n.id == name for n in ast.walk(node))
+
+
+def _loop_to_comprehension(init, loop):
+    """`acc = [] / b''` directly followed by `for x in it: acc.append(e) | acc += [e] | acc += bytes([e]) | acc += e`
+    -> one assignment of a comprehension (None when the pair has another shape)."""
+    if not (isinstance(init, ast.Assign) and len(init.targets) == 1 and isinstance(init.targets[0], ast.Name)
+            and isinstance(loop, ast.For) and not loop.orelse and len(loop.body) == 1 and isinstance(loop.target, ast.Name)):
+        return None
+    acc, v, b = init.targets[0].id, init.value, loop.body[0]
+    is_list = isinstance(v, ast.List) and not v.elts
+    is_bytes = (isinstance(v, ast.Constant) and v.value == b"") or (isinstance(v, ast.Call) and _unp(v) == "bytes()")
+    if not (is_list or is_bytes) or _mentions(loop.iter, acc) or loop.target.id == acc:
+        return None
+    def comp(elt):
+        c = ast.ListComp(elt=elt, generators=[ast.comprehension(target=loop.target, iter=loop.iter, ifs=[], is_async=0)])
+        return ast.copy_location(c, loop)
+    new = None
+    if (is_list and isinstance(b, ast.Expr) and isinstance(b.value, ast.Call) and isinstance(b.value.func, ast.Attribute)
+            and b.value.func.attr == "append" and isinstance(b.value.func.value, ast.Name) and b.value.func.value.id == acc
+            and len(b.value.args) == 1 and not b.value.keywords and not _mentions(b.value.args[0], acc)):
+        new = comp(b.value.args[0])
+    elif (isinstance(b, ast.AugAssign) and isinstance(b.op, ast.Add) and isinstance(b.target, ast.Name) and b.target.id == acc
+          and not _mentions(b.value, acc)):
+        one = None
+        if isinstance(b.value, ast.List) and len(b.value.elts) == 1:
+            one = b.value.elts[0]
+        elif (isinstance(b.value, ast.Call) and isinstance(b.value.func, ast.Name) and b.value.func.id == "bytes" and len(b.value.args) == 1
+              and not b.value.keywords and isinstance(b.value.args[0], ast.List) and len(b.value.args[0].elts) == 1):
+            one = b.value.args[0].elts[0]
+        if is_list and isinstance(b.value, ast.List) and one is not None:
+            new = comp(one)
+        elif is_bytes and one is not None and not isinstance(b.value, ast.List):
+            new = ast.Call(func=ast.Name(id="bytes", ctx=ast.Load()), args=[comp(one)], keywords=[])
+        elif is_bytes:
+            new = ast.Call(func=ast.Attribute(value=ast.Constant(value=b""), attr="join", ctx=ast.Load()), args=[comp(b.value)], keywords=[])
+    if new is None:
+        return None
+    a = ast.Assign(targets=init.targets, value=new)
+    ast.copy_location(a, init)
+    a.end_lineno = getattr(loop, "end_lineno", None)
+    ast.copy_location(new, loop)
+    return a
+
+
+def normalize_block(stmts):
+    """Normal forms of a statement list (recursively)."""
+    out = []
+    i = 0
+    stmts = list(stmts)
+    while i < len(stmts):
+        s = stmts[i]
+        if i + 1 < len(stmts):
+            m = _loop_to_comprehension(s, stmts[i + 1])
+            if m is not None:
+                out.append(m)
+                i += 2
+                continue
+        if isinstance(s, ast.If):
+            rest = stmts[i + 1:]
+            if rest and _terminates(s.body) and not (s.orelse and _terminates(s.orelse)):
+                s.orelse = list(s.orelse) + rest           # guard clause: the rest is the else branch
+                stmts = stmts[:i + 1]
+            elif rest and s.orelse and _terminates(s.orelse) and not _terminates(s.body):
+                s.body = list(s.body) + rest
+                stmts = stmts[:i + 1]
+            s.body = normalize_block(s.body)
+            s.orelse = normalize_block(s.orelse)
+            if s.orelse:
+                swap = False
+                if _term_only(s.body) and not _term_only(s.orelse):
+                    swap = True                              # the branch that only leaves goes last
+                elif _term_only(s.orelse) and not _term_only(s.body):
+                    swap = False
+                elif _negativity(negate(s.test)) < _negativity(s.test):
+                    swap = True                              # positive test first
+                if swap:
+                    s.test, s.body, s.orelse = negate(s.test), s.orelse, s.body
+        elif isinstance(s, (ast.For, ast.While)):
+            s.body = normalize_block(s.body)
+            s.orelse = normalize_block(s.orelse)
+        elif isinstance(s, ast.With):
+            s.body = normalize_block(s.body)
+        elif isinstance(s, ast.Try):
+            s.body = normalize_block(s.body)
+            s.orelse = normalize_block(s.orelse)
+            s.finalbody = normalize_block(s.finalbody)
+            for h in s.handlers:
+                h.body = normalize_block(h.body)
+        out.append(s)
+        i += 1
+    return out
+
+
+def prepare(fn, mi, cls):
+    """Deep copy of the function with helpers inlined and normal forms applied."""
+    f = copy.deepcopy(fn)
+    inl = Inliner(mi, cls, fn_locals(fn), stack=(fn.name,))
+    body = []
+    for s in f.body:
+        r = inl.visit(s)
+        body += r if isinstance(r, list) else [r]
+    f.body = normalize_block(body)
+    ast.fix_missing_locations(f)
+    f._inlined = set(inl.done)
+    return f
+
+
+def callees_of(fn, mi, cls, seen=None):
+    """Same-module / same-class functions reachable through calls (transitively), each prepared, in call order."""
+    seen = seen if seen is not None else {fn.name}
+    out = []
+    for n in _dfs(fn):
+        if isinstance(n, ast.Call):
+            r = resolve_callee(n, mi, cls, fn_locals(fn))
+            if r is not None and r[0].name not in seen:
+                seen.add(r[0].name)
+                h = prepare(r[0], mi, cls)
+                out.append(h)
+                out += callees_of(h, mi, cls, seen)
+    return out
+
+
 def _assignments(fn, target):
     out = []
-    for n in ast.walk(fn):
+    for n in _dfs(fn):
         if isinstance(n, ast.Assign) and len(n.targets) == 1 and _unp(n.targets[0]) == target:
             out.append(n)
         elif isinstance(n, ast.AugAssign) and _unp(n.target) == target:
             out.append(n)
-    out.sort(key=lambda n: (n.lineno, n.col_offset))
     return out
 
 
 def _pick(cands, sel, what):
+    if not cands:
+        raise _NoMatch("selector %r: no match for %s" % (sel, what))
     if "nth" in sel:
         if sel["nth"] >= len(cands):
             raise Unsupported("selector %r: only %d matches for %s" % (sel, len(cands), what))
@@ -811,8 +1363,32 @@ def _pick(cands, sel, what):
     return cands[0]
 
 
-def select_expr(fn, sel):
-    """The expression node named by an expr-mode selector (fail closed)."""
+class _NoMatch(Unsupported):
+    pass
+
+
+def select_expr(fn, sel, callees=()):
+    """The expression node named by an expr-mode selector (fail closed).  The function itself (helpers
+    inlined, normal forms applied) is searched first; only when nothing there matches, the same-module /
+    same-class functions it calls (transitively) are searched, in call order."""
+    try:
+        return _select_in([fn], sel)
+    except _NoMatch as e:
+        if not callees:
+            raise Unsupported(str(e))
+    try:
+        return _select_in(list(callees), sel)
+    except _NoMatch as e:
+        raise Unsupported(str(e) + " (also not in the callees: %s)" % ", ".join(c.name for c in callees))
+
+
+def _walk_all(fns):
+    for f in fns:
+        yield from _dfs(f)
+
+
+def _select_in(fns, sel):
+    fn = ast.Module(body=list(fns), type_ignores=[])
     if "rhs_of" in sel:
         n = _pick(_assignments(fn, sel["rhs_of"]), sel, "assignment to " + sel["rhs_of"])
         if isinstance(n, ast.AugAssign):
@@ -824,7 +1400,7 @@ def select_expr(fn, sel):
     if "test_enclosing" in sel:
         a = _pick(_assignments(fn, sel["test_enclosing"]), sel, "assignment to " + sel["test_enclosing"])
         parents = {}
-        for p in ast.walk(fn):
+        for p in _dfs(fn):
             for c in ast.iter_child_nodes(p):
                 parents[c] = p
         cur, up = a, sel.get("up", 0)
@@ -841,19 +1417,17 @@ def select_expr(fn, sel):
         kind = {"If": ast.If, "While": ast.While}.get(sel["test"])
         if kind is None:
             raise Unsupported("selector %r: test of what?" % (sel,))
-        nodes = sorted((n for n in ast.walk(fn) if isinstance(n, kind)), key=lambda n: (n.lineno, n.col_offset))
+        nodes = [n for n in _dfs(fn) if isinstance(n, kind)]
         n = _pick(nodes, sel, sel["test"] + " statements")
         return n.test, n.test
     if "test_on" in sel:
         # the test of the `if` / `while` statement(s) whose test mentions the given name
-        nodes = sorted((n for n in ast.walk(fn) if isinstance(n, (ast.If, ast.While))
-                        and any(isinstance(x, ast.Name) and x.id == sel["test_on"] for x in ast.walk(n.test))),
-                       key=lambda n: (n.lineno, n.col_offset))
+        nodes = [n for n in _dfs(fn) if isinstance(n, (ast.If, ast.While))
+                 and any(isinstance(x, ast.Name) and x.id == sel["test_on"] for x in ast.walk(n.test))]
         n = _pick(nodes, sel, "tests mentioning " + sel["test_on"])
         return n.test, n.test
     if "arg_of" in sel:
-        calls = [n for n in ast.walk(fn) if isinstance(n, ast.Call) and _unp(n.func) == sel["arg_of"]]
-        calls.sort(key=lambda n: (n.lineno, n.col_offset))
+        calls = [n for n in _dfs(fn) if isinstance(n, ast.Call) and _unp(n.func) == sel["arg_of"]]
         c = _pick(calls, sel, "call of " + sel["arg_of"])
         j = sel.get("index", 0)
         if j >= len(c.args):
@@ -864,9 +1438,15 @@ def select_expr(fn, sel):
 
 def prefix_stmts(fn, spec):
     """Top-level statements from the first one matching spec["start_at"] (default: the first) up to,
-    excluding, the first later one matching spec["stop_at"]."""
+    excluding, the first later one matching spec["stop_at"].  A pattern is a node class name ("For",
+    "Return"), "text:<prefix of ast.unparse(stmt)>" or "assign:<name>" (the statement binds that local)."""
     def hit(s, pat):
-        return _unp(s).startswith(pat[5:]) if pat.startswith("text:") else type(s).__name__ == pat
+        if pat.startswith("text:"):
+            return _unp(s).startswith(pat[5:])
+        if pat.startswith("assign:"):
+            tg = s.targets if isinstance(s, ast.Assign) else [s.target] if isinstance(s, (ast.AugAssign, ast.AnnAssign)) else []
+            return any(isinstance(t, ast.Name) and t.id == pat[7:] for t in tg)
+        return type(s).__name__ == pat
     stop, start = spec["stop_at"], spec.get("start_at")
     out, started = [], start is None
     for s in fn.body:
@@ -879,6 +1459,80 @@ def prefix_stmts(fn, spec):
             return out, s
         out.append(s)
     raise Unsupported("prefix mode: no top-level statements match start_at=%r / stop_at=%r" % (start, stop))
+
+
+# -- metavariables: spec["bind"] = ["$v = $v - 1", ...] names locals by their ROLE, so that renaming a local
+#    (or moving the code into a helper that names it differently) does not break selectors / inputs
+
+_MV = re.compile(r"\$([A-Za-z_][A-Za-z0-9_]*)")
+
+
+def _pattern(text):
+    t = ast.parse(_MV.sub(lambda m: "__mv_%s__" % m.group(1), text))
+    if len(t.body) != 1:
+        raise Unsupported("bind pattern %r: one statement or expression expected" % text)
+    return t.body[0].value if isinstance(t.body[0], ast.Expr) else t.body[0]
+
+
+def _match(p, n, b):
+    if isinstance(p, ast.Name) and p.id.startswith("__mv_") and p.id.endswith("__"):
+        if not isinstance(n, ast.Name):
+            return False
+        k = p.id[5:-2]
+        if b.setdefault(k, n.id) != n.id:
+            return False
+        return True
+    if type(p) is not type(n):
+        return False
+    for f in p._fields:
+        if f == "ctx":
+            continue
+        x, y = getattr(p, f, None), getattr(n, f, None)
+        if isinstance(x, list):
+            if not isinstance(y, list) or len(x) != len(y) or not all(_match(a, c, b) if isinstance(a, ast.AST) else a == c for a, c in zip(x, y)):
+                return False
+        elif isinstance(x, ast.AST):
+            if not isinstance(y, ast.AST) or not _match(x, y, b):
+                return False
+        elif x != y:
+            return False
+    return True
+
+
+def resolve_binds(spec, fn, callees):
+    binds = {}
+    for text in spec.get("bind", ()):
+        p = _pattern(text)
+        found = []
+        for space in ([fn], list(callees)):
+            for n in _walk_all(space):
+                b = {}
+                if type(n) is type(p) and _match(p, n, b) and b not in found:
+                    found.append(b)
+            if found:
+                break
+        if len(found) != 1:
+            raise Unsupported("bind pattern %r: %d different matches (must be exactly one)" % (text, len(found)))
+        for k, v in found[0].items():
+            if binds.setdefault(k, v) != v:
+                raise Unsupported("bind patterns disagree on $%s (%s / %s)" % (k, binds[k], v))
+    return binds
+
+
+def apply_bindings(x, binds):
+    if isinstance(x, str):
+        def rep(m):
+            if m.group(1) not in binds:
+                raise Unsupported("metavariable $%s is not bound by spec['bind']" % m.group(1))
+            return binds[m.group(1)]
+        return _MV.sub(rep, x)
+    if isinstance(x, list):
+        return [apply_bindings(y, binds) for y in x]
+    if isinstance(x, tuple):
+        return tuple(apply_bindings(y, binds) for y in x)
+    if isinstance(x, dict):
+        return {k: (v if k in ("bind", "name") else apply_bindings(v, binds)) for k, v in x.items()}
+    return x
 
 
 def check_globals(tree, fn, used, qualname):
@@ -919,21 +1573,29 @@ def check_globals(tree, fn, used, qualname):
 
 
 def locate(path, qualname, spec):
-    """-> (mode, function node, payload, (first line, last line), source bytes)."""
+    """-> (mode, prepared function node, payload, (first line, last line), source bytes).
+    The function node carries ._module_tree, ._mi (ModInfo), ._cls, ._orig (unprepared node), ._callees,
+    ._bindings (metavariables) and ._spec (the spec with metavariables replaced)."""
     src = open(path, "rb").read()
     tree = ast.parse(src, filename=path)
-    fn = find_function(tree, qualname)
-    fn._module_tree = tree
+    fn0, cls = find_function(tree, qualname)
+    mi = ModInfo(tree)
+    fn = prepare(fn0, mi, cls)
+    fn._module_tree, fn._mi, fn._cls, fn._orig = tree, mi, cls, fn0
+    fn._callees = callees_of(fn, mi, cls)
+    fn._bindings = resolve_binds(spec, fn, fn._callees)
+    spec = apply_bindings(spec, fn._bindings)
+    fn._spec = spec
     mode = spec.get("mode", "function")
     if mode == "function":
-        return mode, fn, fn.body, (fn.lineno, fn.end_lineno), src
+        return mode, fn, fn.body, (fn0.lineno, fn0.end_lineno), src
     if mode == "prefix":
         stmts, stop = prefix_stmts(fn, spec)
-        first = stmts[0].lineno if (spec.get("start_at") and stmts) else fn.lineno
-        return mode, fn, stmts, (first, stop.lineno - 1), src
+        first = stmts[0].lineno if (spec.get("start_at") and stmts) else fn0.lineno
+        return mode, fn, stmts, (first, max(first, stop.lineno - 1)), src
     if mode == "expr":
-        e, where = select_expr(fn, spec["select"])
-        return mode, fn, e, (where.lineno, where.end_lineno), src
+        e, where = select_expr(fn, spec["select"], fn._callees)
+        return mode, fn, e, (where.lineno, getattr(where, "end_lineno", None) or where.lineno), src
     raise Unsupported("unknown mode %r" % mode)
 
 
@@ -944,7 +1606,8 @@ def locate(path, qualname, spec):
 def translate_info(path, qualname, spec, relpath=None):
     """-> (gallina text, info dict)."""
     mode, fn, payload, (l0, l1), src = locate(path, qualname, spec)
-    tr = Tr(spec)
+    spec = fn._spec
+    tr = Tr(spec, fn)
     env = tr.initial_env()      # every other name must be assigned before use
     if mode == "function":
         if fn.args.vararg or fn.args.kwarg or fn.args.kwonlyargs or fn.decorator_list:
@@ -988,11 +1651,15 @@ def translate_info(path, qualname, spec, relpath=None):
     head = "(* source: %s lines %d-%d sha256 %s ; %s %s%s *)\n" % (
         rel, l0, l1, sha, mode, qualname,
         (" " + repr(spec.get("select") or spec.get("stop_at"))) if mode != "function" else "")
+    if tr.consts_used or tr.inlined:
+        head = head[:-4] + " ; constants %s ; inlined %s *)\n" % (
+            ", ".join("%s=%s" % kv for kv in sorted(tr.consts_used.items())) or "-", ", ".join(sorted(tr.inlined)) or "-")
     text = (head + "Definition %s %s : %s :=\n%s.\n\n" % (name, params, rty, _ind(d))
             + "(* domain on which the Gallina operations above agree with Python (PyOps.v) *)\n"
             + "Definition %s_pre %s : Prop :=\n%s.\n" % (name, params, _ind(pre)))
     info = {"name": name, "qualname": qualname, "file": rel, "lines": [l0, l1], "sha256": sha, "mode": mode,
-            "params": [[c, t] for _k, c, t, _n, _x in tr.inputs], "ret": rty}
+            "params": [[c, t] for _k, c, t, _n, _x in tr.inputs], "ret": rty,
+            "constants": dict(tr.consts_used), "inlined": sorted(tr.inlined), "bindings": dict(fn._bindings)}
     return text, info
 
 
